@@ -28,6 +28,7 @@ EXPLANATION = (
     "The behaviour of external Loader implementations is not decided."
 )
 NOT_DECIDED = "that an arbitrary Loader implementation verifies the checksum it is given; byte-level equality of hashed and stored content beyond 'same variable'"
+CONFIGS = ["default", "nofastcheck"]  # thorough tier also analyses the build without fast_check / symbols
 ASSUMPTIONS = [
     "Loader implementations honour LoadOptions.maybe_checksum (outside the crate)",
     "field-based slicing: all struct literals of a type are treated as possible producers of each field read",
